@@ -28,6 +28,14 @@ Theorem C01_receiver : forall t k m,
 Proof. intros. destruct (gen_method_wiring t k m) as (_ & _ & _ & _ & _ & A & B & C & D). auto. Qed.
 Print Assumptions C01_receiver.
 
+(* #[cglue_forward]: a call made through a Fwd handle reaches the method of the same index on the value behind the handle, with the same
+   arguments — for every method with a reference receiver, provided (default-bodied) ones included; by-value methods are not forwarded *)
+Theorem C01_forward : forall t k m vs,
+  nth_error (t_methods t) k = Some m -> m_vtbl_only m = false -> m_recv m <> ROwn -> length vs = length (m_args m) ->
+  fwd_dispatch (gen_forward t) k vs = Some (k, vs).
+Proof. exact forward_same. Qed.
+Print Assumptions C01_forward.
+
 Example C01_example :
   let t := mkt true [mkm RRef IDefault QResUnitErr 2 [(ASlice, 0); (AStr, 0)] false; mkm ROwn IDefault QPrim 3 [] false] in
   dispatch (gen_trait t) (t_methods t) 0 [RvSlice 4096 3; RvStr 8192 5] = Some (0%nat, [RvSlice 4096 3; RvStr 8192 5]).
